@@ -473,7 +473,7 @@ fn pool() -> Vec<Transaction> {
         vec![Witness::from(bytes_of(7, 12))],
     );
     *field::ReceiptsRoot::receipts_root_mut(&mut t2) = b32(0x35);
-    let t3 = Transaction::script(
+    let mut t3 = Transaction::script(
         0,
         s2.clone(),
         bytes_of(8, 13),
@@ -482,6 +482,7 @@ fn pool() -> Vec<Transaction> {
         vec![Output::coin(a1, 3, x2)],
         vec![Witness::from(vec![]), Witness::from(bytes_of(9, 14))],
     );
+    *field::ReceiptsRoot::receipts_root_mut(&mut t3) = b32(0x47);
     let t4 = Transaction::create(
         1,
         Policies::new().with_max_fee(1).with_maturity(2u32.into()),
